@@ -24,6 +24,7 @@ type Cone struct {
 	Level   string   `json:"level"`
 	Note    string   `json:"note"`
 	Bounded []BoundedCheck `json:"bounded"`
+	WatchKeys string       `json:"watch_keys"` // regexp over heap keys: writes to pre-existing cells of these keys must be declared
 }
 
 type BoundedCheck struct {
@@ -163,8 +164,36 @@ func runCone(w *World, cs *Contracts, cone *Cone, tier string, seed int, outDir 
 				obls = append(obls, o)
 			}
 		}
+		if cone.WatchKeys != "" {
+			// ground frame obligations from the syntactic write analysis: a function (with everything it calls) may
+			// write pre-existing cells of a watched key only if its contract lists the key under `opt writes-existing`
+			allowed := map[string]bool{}
+			if e.ct != nil {
+				for _, k := range strings.Fields(e.ct.Opts["writes-existing"]) {
+					allowed[k] = true
+				}
+			}
+			var ks []string
+			for k := range w.WE[w.Funcs[n]] {
+				ks = append(ks, k)
+			}
+			sort.Strings(ks)
+			for _, k := range ks {
+				if regexp.MustCompile(cone.WatchKeys).MatchString(k) {
+					goal := "false"
+					if allowed[k] {
+						goal = "true"
+					}
+					obls = append(obls, &Obligation{Name: n + "#wexist:" + k, Func: n, Class: "wexist", Desc: k, Goal: goal})
+				}
+			}
+		}
 		bg := e.Background()
 		for _, o := range obls {
+			if o.Class == "wexist" {
+				run.bgOf[o] = ""
+				continue
+			}
 			run.bgOf[o] = e.BackgroundFor(o)
 		}
 		for t := range e.trustedUsed {
